@@ -83,6 +83,55 @@ def run(rep, tier):
                         "exclusion-list construction from bonded interactions (CreateExclusions) is not decided"]
 
 
+def exclusion_wrapper(f, call):
+    """a call of a file-local helper that returns  [flag &&] IsExcluded(a, b)  of its parameters: {'args': [node a, node b], 'switch': flag is do_exclusions_}"""
+    from vsa.cases import decision_table
+    facts = getattr(f, "facts", None)
+    if facts is None:
+        return None
+    gs = [h for h in facts.find(call["callee"]) if h.j.get("internal") and h.j.get("body") and len(h.j["params"]) == len(call.get("args", []))
+          and (h.file == f.file or h.unit == f.unit)]
+    if len(gs) != 1 or not any(x.get("k") == "mcall" and (x.get("callee") or "").endswith("ExclusionList::IsExcluded") for x in gs[0].walk()):
+        return None
+    h = gs[0]
+    fo = Fold(h, record_calls=r"ExclusionList::IsExcluded$").run()
+    ex = [e for e in fo.events if e["kind"] == "call"]
+    if len(ex) != 1 or len(fo.returns) < 1:
+        return None
+    pnames = [p_["name"] for p_ in h.j["params"]]
+    a_, b_ = str(ex[0]["args"][0]), str(ex[0]["args"][1])
+    if a_ not in pnames or b_ not in pnames:
+        return None
+    # truth table of the returned value over (flag parameters, IsExcluded result)
+    flags = [p_["name"] for p_ in h.j["params"] if (p_.get("type") or "").replace("const ", "").strip() == "bool"]
+    val = fo.returns[0][0] if len(fo.returns) == 1 else None
+    if val is None:
+        return None
+    import itertools
+    from vsa.cases import decide
+
+    def orc(lf):
+        s_ = str(lf)
+        if s_.startswith("IsExcluded("):
+            return ("excl", True)
+        if s_ in flags:
+            return ("flag:" + s_, True)
+        return None
+    names = ["excl"] + ["flag:" + x for x in flags]
+    ok_flag = None
+    for vals in itertools.product((True, False), repeat=len(names)):
+        A = dict(zip(names, vals))
+        r = decide(val, None, A, orc, getattr(fo, "conds", {}))
+        if r is None:
+            return None
+        want = A["excl"] and all(A[k_] for k_ in names[1:])
+        if r != want:
+            return None
+    argn = {pn: an for pn, an in zip(pnames, call["args"])}
+    sw = bool(flags) and all(unwrap(argn[x]).get("k") == "member" and unwrap(argn[x]).get("fname") == "do_exclusions_" for x in flags)
+    return {"args": [argn[a_], argn[b_]], "switch": sw}
+
+
 def check_kernel(rep, f, add, find, arity):
     name = f.qname.split("votca::csg::")[-1]
     g = CFG(f)
@@ -158,6 +207,13 @@ def check_kernel(rep, f, add, find, arity):
               "%s stores connection vectors of bead pairs %s with the tuple %s; required %s (direction matters)" % (name, gotv, beads, want_vec_pairs), f.loc(A), sample=True)
     # --- exclusion tests
     excl = [n for n in f.walk() if n.get("k") == "mcall" and (n.get("callee") or "").endswith("ExclusionList::IsExcluded")]
+    wrapped = {}
+    for n in f.walk():
+        if n.get("k") == "call" and n.get("callee"):
+            w = exclusion_wrapper(f, n)
+            if w is not None:
+                wrapped[n["id"]] = w
+                excl.append({"id": n["id"], "args": w["args"], "k": "call", "line": n.get("line"), "wrapper": True})
     want_ex = 1 if arity == 2 else 3
     rep.floor("R3.2", len(excl), want_ex, "exclusion tests in " + name)
     ex_pairs = set()
@@ -170,6 +226,8 @@ def check_kernel(rep, f, add, find, arity):
         # the test is only skipped when do_exclusions_ is false
         sw = [x for x in f.walk() if x.get("k") == "member" and x.get("fname") == "do_exclusions_"]
         guards = [x for x in sw if g.edge_required(x["id"], True, e["id"], None) is True]
+        if e.get("wrapper") and wrapped[e["id"]]["switch"]:
+            guards = [True]          # the helper itself evaluates IsExcluded only when its flag argument (do_exclusions_) is set
         rep.check(bool(guards), "R3.2", "%s|exclusion-switch|%s" % (name, ",".join(pr)), "exclusion test guarded by do_exclusions_",
                   "%s: the exclusion test is not controlled by do_exclusions_" % name, f.loc(e))
     want_exp = {frozenset(p) for p in ([(beads[0], beads[1])] if arity == 2 else [(beads[0], beads[1]), (beads[0], beads[2]), (beads[1], beads[2])])}
@@ -407,14 +465,40 @@ from vsa.cases import congruent
 
 
 def check_simple_iterators(rep, F):
+    from vsa.cases import decide, resolve_ite, ites
     for qn, nlists in ((C + "NBList::Generate", 2),):
         for f in F.find(qn):
             if len(f.j["params"]) != 3:
                 continue
-            txt_ok = False
-            for n in f.walk():
-                if n.get("k") == "if" and re.sub(r"\s+", "", show(n["cond"])) == "(&list1==&list2)":
-                    th = [show(x) for x in walk(n["then"]) if x.get("k") in ("opcall", "unop", "assign")]
-                    txt_ok = any(t.replace(" ", "") == "(iter2=iter1)" for t in th) and any(t.replace(" ", "") in ("++iter2", "iter2++") for t in th)
-            rep.check(txt_ok, "R3.4", "NBList::Generate|one-list-start", "same list: inner iterator starts one past the outer",
-                      "NBList::Generate does not start the inner iterator after the outer one when both lists are the same (pairs twice / self pairs)", f.loc())
+            fo = Fold(f, inline="internal", record_calls=r"::AddPair$").run()
+            adds = [e for e in fo.events if e["kind"] == "call"]
+            loops = getattr(fo, "loops", [])
+            ok, why = False, "inner loop of the pair search not found"
+            if len(adds) == 1:
+                lids = [g_[0][1] for g_ in adds[0]["guards"] if isinstance(g_[0], tuple) and g_[0] and g_[0][0] == "loop"]
+                inner = [l for l in loops if lids and l["lid"] == lids[-1]]
+                outer = [l for l in loops if len(lids) >= 2 and l["lid"] == lids[-2]]
+                if inner and outer:
+                    its = [v for v in inner[0]["init"].values() if v is not None and not isinstance(v, (Matrix,))]
+                    osyms = list(outer[0]["syms"].values())
+                    p1, p2 = f.j["params"][0]["name"], f.j["params"][1]["name"]
+                    conds = getattr(fo, "conds", {})
+
+                    def same_oracle(lf):
+                        if isinstance(lf, tuple) and len(lf) == 3 and lf[0] in ("==", "!=") and {str(lf[1]), str(lf[2])} == {"('&', %s)" % p1, "('&', %s)" % p2}:
+                            return ("same-list", lf[0] == "==")
+                        return None
+                    ok = False
+                    why = "the inner iterator starts at %s" % [str(v)[:80] for v in its]
+                    for v in its:
+                        if isinstance(v, tuple):
+                            continue
+                        vs = resolve_ite(v, lambda cs: decide(conds[cs], None, {"same-list": True}, same_oracle, conds) if cs in conds else None)
+                        vd = resolve_ite(v, lambda cs: decide(conds[cs], None, {"same-list": False}, same_oracle, conds) if cs in conds else None)
+                        if ites(vs) or ites(vd):
+                            continue
+                        s_same, s_diff = str(vs), str(vd)
+                        after = any(s_same in ("iterinc(%s)" % o, "next(%s)" % o, "next(%s, 1)" % o) for o in map(str, osyms))
+                        ok = ok or (after and s_diff == "begin(%s)" % p2)
+            rep.check(ok, "R3.4", "NBList::Generate|one-list-start", "same list: inner iterator starts one past the outer; different lists: at the beginning of the second",
+                      "NBList::Generate: %s - when both lists are the same the inner iterator must start after the outer one (pairs twice / self pairs), otherwise at list2.begin()" % why, f.loc())
